@@ -188,6 +188,7 @@ def write_replay(prop, master, vio, digest_hex=None, tier="quick", rerun=False):
                 "original_commands": vio.get("orig_len"),
                 "case": vio["case"],
                 "tier": tier,
+                "hashseed": os.environ.get("PYTHONHASHSEED"),
                 # set when the minimised case alone does not reproduce in a fresh interpreter
                 # (the violation depends on what earlier runs left behind in process-wide
                 # state of the library): replay then re-executes the worker's runs lo..run
